@@ -383,14 +383,17 @@ def mixed_stabilizer_equivalency(stab1, stab2):
             stab2_copy = copy.deepcopy(stab2)
             for p_i, s_i in stab1:
                 for q_i, t_i in stab2_copy:
-                    if np.equal(p_i, q_i) and s_i == t_i:
+                    if np.equal(p_i, q_i) and canonical_form(
+                        s_i.copy()
+                    ) == canonical_form(t_i.copy()):
                         stab2_copy.remove((q_i, t_i))
                         break
             return len(stab2_copy) == 0
         else:
             return False
     elif isinstance(stab1, StabilizerTableau) and isinstance(stab2, StabilizerTableau):
-        return stab1 == stab2
+        # two tableaux describe the same state iff their canonical forms agree (not their generator lists)
+        return canonical_form(stab1.copy()) == canonical_form(stab2.copy())
     else:
         return False
 
